@@ -37,6 +37,30 @@ CHECKS.update({
    text="All tick-input sequences to depth 2-3 over a 361-symbol alphabet (RTT x observed bitrate relative to the current target x byte/NAK deltas incl. counter resets x spacing, link vanishing), to depth 4-5 over 24 symbols, to depth 6-8 over a loss alphabet, and every history that uses at most two (depth 13-16) or three (depth 9) distinct symbols out of 40, each from up to eight start states reached by scripted real histories (seeded, at the ceiling, at the floor via drain re-entries, at the floor via back-off, loss latch engaged, 'not my loss' verdict held). The oracle relates every snapshot to its predecessor and the tick's inputs (bounds, the only two ways the cap may fall, 6%/2x growth, seed bound, latch timing).",
    note="Trusted: the relational monitor (integer arithmetic from the statement, +-1 rounding slack), the scripted start histories (their reachability is re-checked and reported on every run). Floating point: exact for the enumerated inputs only.",
    design="3/C16"),
+ "C03": dict(
+   engine="prodx",
+   technique="exhaustive product enumeration of link-state combinations x configurations through the real select_connection_idx against an independent 'usable' predicate",
+   text="The full per-link product (8 lifecycle states x 4 receive ages x 8 loads x 3 windows x 6 stall histories x 3 quality gates x 3 CC targets x 3 NAK histories = 124416 states) for one link, sub-libraries of 576/288, 40 and 24 states per link for 2, 3 and 4 links, each under every combination of mode, quality scoring, guard, four threshold settings, three timeouts and every previous index, are pushed through the real selector; whenever the harness's own usable predicate (registered, connected, not timed out by its own rule) holds for some link the result must be Some. Blackouts need a specific combination of gates across links, which is exactly what a product enumeration covers and example tests do not.",
+   note="Trusted: the usable predicate and time-out rule in the harness; link states are built from the public constructor plus test-internals fields (selector inputs), stall-latch / silence-pull state by running the real selector over a scripted earlier timeline. Multi-link products use sub-libraries, not the full product.",
+   design="3/C03"),
+ "C11": dict(
+   engine="prodx",
+   technique="exhaustive product enumeration through the real enhanced selector with an independent score and decision oracle, plus idempotence re-calls",
+   text="Every state of a 388800..2.3M-state per-link product (incl. nine NAK ages/bursts, six RTTs, five CC target/measured ratios, connection age across the 30 s boundary), all pairs of a 729-state and a 40-state library, triples and quadruples of archetype libraries, under quality on/off, guard on/off, threshold settings and every previous index, are decided by the real selector and compared with an independent re-computation of base x phase weight x quality x soft cap x gate penalty and of the hysteresis rule (first maximum; keep the previous link unless it was skipped or best >= 1.10 x its score); each decision is re-run on the unchanged state and with its own result as previous link.",
+   note="Trusted: the oracle's score/decision re-implementation (about 100 lines); the quality multiplier actually used is read back from the cache and only range-checked. Near-ties below 1e-9 relative are tolerated. States with a disconnected-but-schedulable link accept either reading of 'unconstrained exists' (judged by C03).",
+   design="3/C11"),
+ "C12": dict(
+   engine="seqx",
+   technique="exhaustive history exploration of the real selector with a relational oracle (state before = state after; decision with history = decision of a never-selected twin)",
+   text="All histories up to depth 5-7 (and <=3-deviation histories to depth 12 for 4 links) of select / clock advance / load / earned proof / hearing / drain / NAK / disconnect / guard toggle / threshold change over 1..4 real links in both modes, from a fresh state and from scripted latched and silence-pulled states. On every select the full liveness/accounting projection of every link is compared before and after and against a twin that went through the same events but was never selected on; with the guard off all stall flags must be clear and the decision must equal the twin's.",
+   note="Trusted: the projection (Debug rendering of the public sub-structs plus the sorted packet log), the twin construction. Every state-changing event advances the clock by >= 50 ms so the quality cache cannot differ between link and twin.",
+   design="3/C12"),
+ "C13": dict(
+   engine="seqx",
+   technique="exhaustive timed-trace exploration of the real selector + real uplink receive path with an independent temporal monitor",
+   text="All traces up to depth 4-7, all <=2..4-deviation traces to depth 12-14 with default select(1000), and all <=2..3-deviation traces to depth 26-40 around the pattern proof, select(250|500), proof, select, ... (which walks a complete rejoin dwell), from a fresh state and from a scripted latched state, for 2-3 links and up to 24 settings of RTT baseline x in-flight threshold x ceiling (incl. a ceiling below the floor). Proof, hearing, drain and REG_ERR events are datagrams pushed through the real handle_uplink_packet; the monitor keeps its own run-start, recomputes the window and judges every latch / pull edge and both counters. The run is rejected as vacuous unless rising and falling edges of both tiers were observed.",
+   note="Trusted: the temporal monitor (about 80 lines). Thresholds, ceiling and RTT are fixed per trace. Scheduling decisions are direct calls of select_connection_idx.",
+   design="3/C13"),
 })
 
 NOT_YET = {
